@@ -502,12 +502,32 @@ func (ex *Exec) fmtInt(t *Term, signed bool) Value {
 		if d := digitsOf(t); d != nil {
 			return d
 		}
+		if t.HasRng && t.Lo >= 0 {
+			return tStrFromInt(t)
+		}
 		neg := tIntCmp("<", t, mkInt(0))
 		return tIte(neg, tStrConcat(mkStr("-"), tStrFromInt(tIntSub(mkInt(0), t))), tStrFromInt(t))
 	}
-	// symbolic bit-vector into a string: opaque digits (DESIGN 2.3: use Int-backed variables where it matters)
+	// symbolic bit-vector into a string: an uninterpreted injective rendering (equal texts iff equal
+	// numbers); use Int-backed variables where the digits matter (DESIGN 2.3)
+	type itoaRec struct {
+		x *Term
+		s *Term
+	}
+	recs, _ := ex.hctx["itoa"].([]itoaRec)
+	for _, r := range recs {
+		if r.x == t {
+			return r.s
+		}
+	}
 	s := ex.fresh("itoa", SStr)
-	ex.trace = append(ex.trace, TraceEvent{Kind: "note", Label: "opaque-itoa"})
+	ex.assume(newTerm("in_re_digits", SBool, s))
+	for _, r := range recs {
+		if r.x.Sort == t.Sort {
+			ex.assume(tEq(newTerm("=", SBool, r.s, s), tEq(r.x, t)))
+		}
+	}
+	ex.hctx["itoa"] = append(recs, itoaRec{t, s})
 	return s
 }
 
@@ -541,6 +561,9 @@ func (ex *Exec) fmtValue(fr *Frame, site ssa.Instruction, v Value, verb byte) Va
 			return mkStr("%!d(<nil>)")
 		}
 		return mkStr("<nil>")
+	}
+	if isLazyIface(i) {
+		i = ex.resolveIface(fr, site, i)
 	}
 	if verb == 'T' {
 		return mkStr(types.TypeString(i.t, nil))
@@ -840,6 +863,9 @@ func init() {
 	})
 	reg("(reflect.Value).IsZero", func(ex *Exec, fr *Frame, site ssa.Instruction, a []Value) Value {
 		i, ok := a[0].(Struct)[1].(Iface)
+		if ok {
+			i = ex.resolveIface(fr, site, i)
+		}
 		if !ok || i.t == nil {
 			panic(&goPanic{val: ex.makeError(mkStr("reflect: call of reflect.Value.IsZero on zero Value")), descr: "reflect: call of reflect.Value.IsZero on zero Value", site: ex.site(site)})
 		}
